@@ -30,7 +30,12 @@ def _flag_us(s: str) -> str:
 
 
 def parse_docs() -> dict[str, dict[str, Any]]:
-    path = os.path.join(REPO, "docs", "source", "config_file.rst")
+    import mypy
+
+    top = os.path.dirname(os.path.dirname(os.path.abspath(mypy.__file__)))  # the tree under test
+    path = os.path.join(top, "docs", "source", "config_file.rst")
+    if not os.path.exists(path):
+        path = os.path.join(REPO, "docs", "source", "config_file.rst")
     out: dict[str, dict[str, Any]] = {}
     if not os.path.exists(path):
         return out
